@@ -679,6 +679,7 @@ def plan(mode, tier):
 def new_agg(mode):
   return {"runs": 0, "requests": 0, "workers": 0, "keys": 0, "ctx": set(),
           "nontrivial": 0, "probes": {}, "sim_time": 0.0, "violations": [],
+          "scripted": [],
           "samples": [], "digests": [], "hashseeds": set()}
 
 
@@ -704,6 +705,8 @@ def run_chunk(args):
     kernel.merge_counts(agg["probes"], st["probes"])
     for wk in res["trace"]["workers"]:
       agg["hashseeds"].add(wk["env"]["hashseed"])
+    if res["trace"].get("scripted"):
+      agg["scripted"].append(res["trace"]["scripted"])
     if res["violation"]:
       shrunk += 1
       v = res["violation"]
@@ -729,10 +732,12 @@ def merge_agg(dst, src):
   kernel.merge_counts(dst["probes"], src["probes"])
   dst["violations"].extend(src["violations"])
   dst["samples"].extend(src["samples"])
+  dst["scripted"].extend(src.get("scripted", []))
 
 
 def coverage(agg, mode, tier):
   return {
+      "scripted_scenarios_run": sorted(agg.get("scripted", [])),
       "evaluations": agg["requests"],
       "distinct_nontrivial": len(agg["ctx"]),
       "nontrivial_requests": agg["nontrivial"],
